@@ -187,3 +187,29 @@ Theorem C14_depth_is_fixpoint_for_all_histories : forall (s : egraph N) (hs : li
     make_in N make_depth s sh0 = Ok v0 /\ mapr (make_in N make_depth s) rest = Ok vs /\ d = fold_left N.min vs v0.
 Proof. exact depth_data_is_fixpoint_all_histories. Qed.
 Print Assumptions C14_depth_is_fixpoint_for_all_histories.
+
+(* third session, fourth round (EGraph/AnalysisModelFold{Inst,Top,,Eval}.v): CONSTANT FOLDING (modify_kind = 1, merge = Option::or, with its modify hook).
+   PROVED: the final step - in a state in which make of every stored node is None or the datum of its class and every class with a known
+   constant stores a node making it, the datum of every live class is the fold of merge over make of its stored e-nodes
+   (C14_constant_folding_final_step); the generic control structure of rebuild WITH a non-trivial modify queue (AnalysisModelFoldTop.v: every
+   step of the hook is an operation step; after every operation pending and modify queue are empty); which hypotheses of the generic analysis
+   interface hold for constant folding (merge is associative and idempotent but commutative only on compatible data; the stability test is the
+   order only on compatible data; make is monotone for the flat order) - so the min-size / depth proof cannot be instantiated as it stands.
+   CONDITIONAL (AnalysisModelFold.constfold_data_is_fixpoint_all_histories): the reachable-state theorem for histories that are SEMANTICALLY
+   sound for constant folding (unions only between terms of equal value under a fixed leaf valuation), from the invariant at operation
+   boundaries, which is evaluated on the validation histories at every loop head but not proved.
+   COUNTEREXAMPLES (vm_compute): uniting two different constants makes the datum differ from the fold; and the LOCAL premise "never unite two
+   classes with different KNOWN constants" is not sufficient (P = a+1, Q = b+1 united while unknown, then a = 1, b = 5): soundness for
+   constant folding is a semantic premise on the history, as the harness generator guarantees it. *)
+From SE Require Import EGraph.AnalysisModelFoldInst EGraph.AnalysisModelFoldEval.
+Theorem C14_constant_folding_final_step : forall s : egraph D, cf_stable_in s -> cf_just s ->
+  forall c d, In c (ids D s) -> cf_adata s c = Ok d ->
+  forall sh0 rest, map fst (filter (fun e : node * N => N.eqb (snd e) c) (hashcons D s)) = sh0 :: rest ->
+  exists v0 vs, cf_mk_in s sh0 = Ok v0 /\ mapr (cf_mk_in s) rest = Ok vs /\ d = fold_left merge_or vs v0.
+Proof. exact cf_fixpoint. Qed.
+Print Assumptions C14_constant_folding_final_step.
+
+Theorem C14_local_soundness_premise_is_insufficient :
+  runl tsL opsL [] (empty_egraph D) = Some false /\ (forall rho, sound_ops rho tsL opsL [] = false).
+Proof. exact local_premise_insufficient. Qed.
+Print Assumptions C14_local_soundness_premise_is_insufficient.
